@@ -369,6 +369,41 @@ func init() {
 		tag("xlsxC", "setInlineStr", "T", "inlineTag")
 		tag("File", "SetCellFormula", "T", "formulaTag")
 		tag("File", "SetCellRichText", "T", "richTag")
+		// the types SetCellFormula treats specially when it leaves the old value behind as cached result
+		w.WriteString("def formulaSwitchCases : List String := [")
+		if fd := funcDecl("File", "SetCellFormula"); fd == nil || fd.Body == nil {
+			fail("SetCellFormula: function")
+		} else {
+			n, seen := 0, false
+			ast.Inspect(fd.Body, func(nd ast.Node) bool {
+				sw, ok := nd.(*ast.SwitchStmt)
+				if !ok || seen {
+					return true
+				}
+				if sel, ok := sw.Tag.(*ast.SelectorExpr); !ok || sel.Sel.Name != "T" {
+					return true
+				}
+				seen = true
+				for _, st := range sw.Body.List {
+					if cc, ok := st.(*ast.CaseClause); ok {
+						for _, e := range cc.List {
+							if lit, ok := e.(*ast.BasicLit); ok && lit.Kind == token.STRING {
+								if n > 0 {
+									w.WriteString(", ")
+								}
+								w.WriteString(leanStr(unq(lit.Value)))
+								n++
+							}
+						}
+					}
+				}
+				return false
+			})
+			if !seen {
+				fail("SetCellFormula: switch on the cell type")
+			}
+		}
+		w.WriteString("]\n")
 		w.WriteString("def cellTypes : List (String × String) := [")
 		if e := constExpr("cellTypes"); e == nil {
 			fail("cellTypes table")
